@@ -7,6 +7,9 @@
 //	(c) tx_test.go         transactions: DecodeStrict(s)==nil => Encode(decoded)==s, ID==SHA-256(s)
 //	(d) store_test.go      NewBlock/NewTransaction -> Chain.AddBlock -> fresh DataAccess -> Get*
 //	(e) lisk32_test.go     Lisk32 addresses
+//	(f) text_test.go       corrupted Lisk32 / Hex text forms
+//	(g) lifecycle_test.go  object life cycles: one Transaction / BlockHeader / Block through Init, field changes, Copy,
+//	                       decoding into the used struct, Sign, store + cold load; ID == SHA-256(Encode()) after every recomputation
 package c08
 
 import (
